@@ -32,27 +32,30 @@ Fixpoint hex (l : list byte) : list byte :=
   | b :: t => hexdigit (b2n b / 16) :: hexdigit (b2n b mod 16) :: hex t
   end.
 
-Definition show_pos (s : slice) : list byte :=
-  match bytes s with [] => [x5f] | _ => dec (off s) end.
+(* pfx = [] for slices of the caller's input, "b" for slices of the defragmenter's buffer *)
+Definition show_pos_p (pfx : list byte) (s : slice) : list byte :=
+  match bytes s with [] => [x5f] | _ => pfx ++ dec (off s) end.
+Definition show_pos := show_pos_p [].
 
-Fixpoint render (x : sx) : list byte :=
+Fixpoint render_p (pfx : list byte) (x : sx) : list byte :=
   match x with
   | SN n => dec n
-  | SS s => x23 :: show_pos s ++ x3a :: hex (bytes s)
+  | SS s => x23 :: show_pos_p pfx s ++ x3a :: hex (bytes s)
   | SB l => x78 :: hex l
   | SA a => a
   | SC name args =>
       x28 :: name ++
       (fix go (l : list sx) : list byte :=
-         match l with [] => [x29] | a :: t => x20 :: render a ++ go t end) args
+         match l with [] => [x29] | a :: t => x20 :: render_p pfx a ++ go t end) args
   | SL l =>
       x5b ::
       (fix go (first : bool) (l : list sx) : list byte :=
          match l with
          | [] => [x5d]
-         | a :: t => (if first then [] else [x20]) ++ render a ++ go false t
+         | a :: t => (if first then [] else [x20]) ++ render_p pfx a ++ go false t
          end) true l
   end.
+Definition render := render_p [].
 
 Definition C (name : string) (args : list sx) : sx := SC (str name) args.
 Definition sopt {A} (f : A -> sx) (o : option A) : sx :=
@@ -66,19 +69,21 @@ Definition ekind_name (k : ekind) : list byte :=
       | KMany1 => "Many1" | KCount => "Count" | KAlt => "Alt" | KNonEmpty => "NonEmpty"
       end.
 
-Definition show_at (s : slice) : list byte :=
-  x40 :: show_pos s ++ x2b :: dec (slen s).
+Definition show_at_p (pfx : list byte) (s : slice) : list byte :=
+  x40 :: show_pos_p pfx s ++ x2b :: dec (slen s).
+Definition show_at := show_at_p [].
 
-Definition show_res {A} (f : A -> sx) (r : res A) : list byte :=
+Definition show_res_p (pfx : list byte) {A} (f : A -> sx) (r : res A) : list byte :=
   match r with
-  | Ok rem a => str "(ok " ++ show_at rem ++ x20 :: render (f a) ++ [x29]
-  | Err s k => str "(err " ++ ekind_name k ++ x20 :: show_at s ++ [x29]
-  | Fail s k => str "(fail " ++ ekind_name k ++ x20 :: show_at s ++ [x29]
+  | Ok rem a => str "(ok " ++ show_at_p pfx rem ++ x20 :: render_p pfx (f a) ++ [x29]
+  | Err s k => str "(err " ++ ekind_name k ++ x20 :: show_at_p pfx s ++ [x29]
+  | Fail s k => str "(fail " ++ ekind_name k ++ x20 :: show_at_p pfx s ++ [x29]
   | Incomplete Unknown => str "(inc ?)"
   | Incomplete (Size n) => str "(inc " ++ dec n ++ [x29]
   | Panic => str "(panic)"
   | OutOfFuel => str "(fuel)"
   end.
+Definition show_res {A} := @show_res_p [] A.
 
 (* ---- values ---- *)
 Definition sx_hdr (h : TlsRecordHeader) : sx := C "Hdr" [SN (h_type h); SN (h_version h); SN (h_len h)].
